@@ -285,3 +285,45 @@ Definition model_translate_gen (w : Z) (alphabet amino : list Z) (weight : Z -> 
         let aas := map (fun t => nthZ amino (dot (if reversed then rev t else t) conv)) tuples in
         Ok (split_lens aas (map (fun l => outlen l w) lens))
   end.
+
+(* ---------- extraction of arbitrary items (intervals, multi-exon transcripts) ---------- *)
+(* the common shape of the three strand-aware sites: rows extracted from the encoded reference, all of them
+   reverse-complemented, np.where on the strand column *)
+Definition model_extract {I : Type} (keys : list (Z * Z))
+           (wh : list bool -> list (list Z) -> list (list Z) -> result (list (list Z)))
+           (site : Z * bool) (ez : Z) (ref : list Z)
+           (ext : list Z -> I -> list Z) (strand : I -> Z) (items : list I) : result (list (list Z)) :=
+  let e := enc_of ez in
+  match encode e ref with
+  | Err c => Err c
+  | Ok codes =>
+      let rel := map (ext codes) items in
+      match revcomp_codes keys e (concat rel) (map len rel) with
+      | Err c => Err c
+      | Ok flat =>
+          let rc := split_lens flat (map len rel) in
+          let mask := map (fun it => strand it =? fst site) items in
+          let r := if snd site then wh mask rc rel else wh mask rel rc in
+          match r with Err c => Err c | Ok rows => Ok (map (decode e) rows) end
+      end
+  end.
+(* genes.py get_transcript_sequences: a transcript = (its exons [a,b) in file order, strand); the reference is encoded as
+   ACGTN, the exon slices of one transcript are concatenated, '-' transcripts are reverse-complemented as a whole *)
+Definition transcript := (list (Z * Z) * Z)%type.
+Definition tx_ext (codes : list Z) (t : transcript) : list Z :=
+  concat (map (fun p => slice (fst p) (snd p) codes) (fst t)).
+Definition tx_strand (t : transcript) : Z := snd t.
+Definition model_transcripts (keys : list (Z * Z))
+           (wh : list bool -> list (list Z) -> list (list Z) -> result (list (list Z)))
+           (ref : list Z) (txs : list transcript) : result (list (list Z)) :=
+  model_extract keys wh (where_site true) 2 ref tx_ext tx_strand txs.
+(* Spec: the spliced sequence for '+', its reverse complement for '-' *)
+Definition spec_transcript (ref : list Z) (t : transcript) : list Z :=
+  if tx_strand t =? 45 then spec_revcomp (tx_ext ref t) else tx_ext ref t.
+Definition tx_bases (txs : list transcript) : Z :=
+  sumZ (map (fun t : transcript => sumZ (map (fun p => snd p - fst p) (fst t))) txs).
+
+(* Spec for input the property does not quantify over: a row with a symbol outside ACGTacgt (N, n) or a length that is
+   not a multiple of three must not be translated silently — the call has to raise *)
+Definition tr_wellformed (rows : list (list Z)) : bool :=
+  forallb (fun r => forallb (fun cd => existsb (zlist_eqb cd) all_codons) (chunks_of 3 r)) rows.
